@@ -21,34 +21,48 @@ from props.c04 import canonj, canon
 
 META = {
     'level_text': 'Theorems for all well-formed nodes and all oracles: describe_lists_exported (the report lists exactly the '
-                  'exported (module, wire name) pairs, none twice, and exactly the exported modules), described_is_dispatched '
-                  '(datainfo / readonly / constant of an entry are those of the Param the dispatcher resolves for that name), '
-                  'flags_predict (+ _readonly / _writable), constant_reads, undescribed_unreachable (read / change / do / '
+                  'exported (module, wire name) pairs, none twice, and exactly the exported modules) + listsExactlyB_sound (the monitor '
+                  'accepts only such reports), described_is_dispatched / described_command_is_dispatched '
+                  '(datainfo / readonly / constant / "has an argument" of an entry are those of the Param / Command the dispatcher resolves for that name), '
+                  'flags_predict (+ _readonly / _writable), constant_reads, kind_honoured (a described command can not be changed / read / subscribed, '
+                  'a described parameter not executed), undescribed_unreachable (read / change / do / '
                   'activate => NoSuch..., no call, node unchanged, nothing subscribed) + undescribed_module_unreachable, '
+                  'command_datainfo_equiv (the payloads the described command datainfo accepts - none without `argument` - are exactly those for which '
+                  'the command function is called; all others are refused without a call), model_change_probe_ok / model_read_probe_ok / model_do_probe_ok '
+                  '(the probe specification the monitor applies to the implementation holds of the model), '
                   'describe_stable (any history), emits_importable / emits_importable_history (updates emitted by change AND read, '
-                  'along any history) and described_datainfo_equiv relative to the stated datatype-oracle laws, '
+                  'along any history) and described_datainfo_equiv relative to the datatype-oracle laws stated for the node\'s own datatypes (ImportLaw / AcceptLaw), '
                   'cache_valid + read_reply_importable (the cache only ever holds values the datatype produced, whatever module code '
                   'assigns; read replies and snapshots are importable), class_props_derived (interface class = highest SECoP base class of the class chain, features = direct Feature '
-                  'mixins; derived by the model from the MRO given as data).  Tied to secnode.py / params.py / dispatcher.py by a correspondence run (model report '
-                  '= real report) and report-vs-behaviour monitors on generated nodes and on the shipped configurations.',
+                  'mixins; derived by the model from the MRO given as data), auto_props_ignore_cfg / report_class_props / class_props_cfg_independent (Module.__init__ applies the '
+                  'configuration first and assigns implementation / interface_classes / features afterwards: for EVERY configuration the report states the interface class, '
+                  'features and implementation of the implementing class), cfg_prop_applied (all other declared module properties follow the configuration), table fact module_decls_auto, '
+                  'finish_constRO / constRO_of_finish (readonly / constant of a parameter derived from class + configuration + Parameter.finish: a constant parameter is read-only by construction).  '
+                  'Tied to secnode.py / params.py / modulebase.py / properties.py / dispatcher.py by correspondence runs (model report = real report, the module property lists DERIVED from '
+                  'class + configuration; model step = real step for every request of the sweep) and report-vs-behaviour monitors on generated nodes and on the shipped configurations.',
     'level_note': 'Trusted: Lean kernel + axioms; the order test of a LimitsType pair is classified with the limit checks (not '
-                  'expressible in the described tuple datainfo); the datatype layer is an oracle (C01-C03): emits_importable and '
-                  'described_datainfo_equiv are proved relative to explicit oracle laws and the corresponding facts are tested '
-                  'on the implementation with the real client datatypes; property lists (description, group, visibility, '
-                  'implementation, interface_classes, features) are data taken from the real objects; strict JSON of the report '
-                  'is checked on the implementation only.',
+                  'expressible in the described tuple datainfo); the datatype layer is an oracle (C01-C03): emits_importable, '
+                  'described_datainfo_equiv and command_datainfo_equiv are proved relative to explicit oracle laws (about the datatypes of the node) and the corresponding facts are tested '
+                  'on the implementation with the real client datatypes; property lists of ACCESSIBLES (description, group, visibility) are data taken from the real objects, '
+                  'those of MODULES are derived by the model from the declared properties of the class, class-level values and the configuration; strict JSON: the wire text of the '
+                  'real report must parse with Lean\'s JSON parser (the model has no serialiser).',
     'trusted': [
         'datatype oracle laws: a client datatype rebuilt from a datainfo accepts what the original accepts, and imports the '
-        'export of every validated value (C01-C03)',
-        'exportProperties() (which properties are non-default) is taken from the real objects as data',
-        'shipped configurations: driver calls are not observed there (only replies and subscriptions)',
+        'export of every validated value (C01-C03); the same for the argument datatype of a command',
+        'exportProperties() of parameters and commands (which properties are non-default) is taken from the real objects as data; '
+        'for modules the declared properties (name, external name, export flag, default) and the validated configuration values are data, the rest is derived',
+        'shipped configurations: driver calls are not observed there (only replies and subscriptions); they are probed only after the generated nodes showed no violation',
     ],
     'modelled_not_verified': [
-        'implementation (compared as data); the MRO itself (Python C3 linearisation) is data from the real class',
+        'the MRO itself (Python C3 linearisation) and the qualified class name are data from the real class',
+        'validation of a configured property value by the property\'s datatype (a refused value produces no node)',
         'main-unit substitution ($) — the datainfo is taken after configuration',
-        'json.dumps of the report (strictness is tested on the implementation)',
+        'json.dumps of the report (the text the real node produces is parsed in Lean; the model does not serialise)',
     ],
-    'assumptions': ['Node.WF: distinct module names, distinct wire names per module, predefined names used for their kind'],
+    'assumptions': ['Node.WF: distinct module names, distinct wire names per module, predefined names used for their kind',
+                    'model_change_probe_ok: NoForeignReadOnly (datatypes, hooks and drivers do not use the error class ReadOnly for their own refusals)',
+                    'report_class_props: AutoDecls (the class declares implementation / interface_classes / features as exported properties under these names; '
+                    'proved for frappy\'s Module from the generated table)'],
 }
 
 PID = 'C06'
@@ -66,7 +80,8 @@ def report_json(desc):
             accs.append({'name': aname, 'kind': kind, 'datainfo': canonj(di),
                          'readonly': ad.get('readonly') if kind == 'param' else None,
                          'constant': canonj(ad['constant']) if 'constant' in ad else None,
-                         'props': [[k, canonj(v)] for k, v in ad.items() if k not in ('datainfo', 'readonly', 'constant')]})
+                         'props': [[k, canonj(v)] for k, v in ad.items() if k not in ('datainfo', 'readonly', 'constant')],
+                         'argument': (di.get('argument') is not None) if kind == 'command' else None})
         mods.append({'name': mname, 'accs': accs,
                      'props': [[k, canonj(v)] for k, v in md.items() if k != 'accessibles']})
     return mods
@@ -82,6 +97,20 @@ def subs_state(node):
     d = node.dispatcher
     return (sorted((k, sorted(c.cid for c in v)) for k, v in d._subscriptions.items() if v),
             sorted(c.cid for c in d._active_connections))
+
+
+FALSY = [0, 0.0, False, '', [], {}]      # JSON values that are not null but false in Python
+
+
+def do_payloads(rng, kind, argspec):
+    """payloads of the `do` requests aimed at one name: for a command no payload, an 'empty' JSON value, a junk value and
+    (where the generator knows the argument datatype) a valid one and one from the boundary catalogue"""
+    if kind != 'command':
+        return [rng.choice([None, None, 1, 0])]
+    out = [None, rng.choice(FALSY), rng.choice(c04.JUNK)]
+    if argspec is not None:
+        out += [c04.gen_valid(rng, argspec), c04.gen_payload(rng, argspec)[0]]
+    return out
 
 
 def sweep_steps(rng, node, nodespec):
@@ -103,15 +132,16 @@ def sweep_steps(rng, node, nodespec):
                 spec = '%s:%s' % (mname, name)
                 for rk in ('change', 'read', 'do'):
                     if rk == 'change':
-                        data = c04.gen_payload(rng, dtspec if kind == 'param' else None)[0] if rng.random() < 0.3 else (
-                            c04.gen_valid(rng, dtspec) if (kind == 'param' and dtspec) else rng.choice(c04.JUNK))
+                        datas = [c04.gen_payload(rng, dtspec if kind == 'param' else None)[0] if rng.random() < 0.3 else (
+                            c04.gen_valid(rng, dtspec) if (kind == 'param' and dtspec) else rng.choice(c04.JUNK))]
                     elif rk == 'do':
-                        data = None if (kind != 'command' or dtspec is None or rng.random() < 0.2) else c04.gen_valid(rng, dtspec)
+                        datas = do_payloads(rng, kind, dtspec)
                     else:
-                        data = None
-                    steps.append({'kind': rk, 'spec': spec, 'data': data,
-                                  'script': rng.choice(['none', 'value_valid', 'value_valid', 'raise_secop']),
-                                  'seed': rng.randrange(1 << 30)})
+                        datas = [None]
+                    for data in datas:
+                        steps.append({'kind': rk, 'spec': spec, 'data': data,
+                                      'script': rng.choice(['none', 'value_valid', 'value_valid', 'raise_secop']),
+                                      'seed': rng.randrange(1 << 30)})
                 acts.append((mname, name))
         acts.append((mname, None))
     # faults inside the module: it assigns values its own datatype refuses (wrong kind, out of range, too long, NaN),
@@ -131,6 +161,99 @@ def sweep_steps(rng, node, nodespec):
     acts.append(('zz', None))
     acts.append(('zz', 'value'))
     return steps, acts
+
+
+def prop_ser(po, val):
+    """a property value: [canonical form of the Python value (what `val != po.default` compares), the text
+    exportProperties would put into the report]"""
+    key = canon(val)
+    try:
+        val = po.datatype.export_value(val)
+    except AttributeError:
+        pass
+    return [key, canonj(val)]
+
+
+def module_init(mycls, mcfg):
+    """what Module.__init__ starts from, as data for the model: the declared properties of the class, class-level values,
+    the configuration entries (values validated by the property's datatype, serialised), the qualified class name"""
+    from frappy.properties import UNSET
+    decls, preset, cfg = [], [], []
+    for pn, po in mycls.propertyDict.items():
+        decls.append([pn, po.extname or '', bool(po.export), po.export == 'always'] + prop_ser(po, po.default))
+        if po.value is not UNSET:
+            preset.append([pn] + prop_ser(po, po.value))
+        value = mcfg.get(pn)
+        if isinstance(value, dict):
+            value = value.get('value')
+        if value is not None:
+            cfg.append([pn] + prop_ser(po, po.datatype.validate(value)))
+    return {'decls': decls, 'preset': preset, 'cfg': cfg, 'impl': f'{mycls.__module__}.{mycls.__name__}'}
+
+
+def param_init(mycls, modobj, attr, acfg):
+    """how readonly / constant of a parameter come about, as data for the model: the values of the class-level Parameter
+    object and the configuration entries (a configured constant converted by the parameter's datatype)"""
+    cls_p = mycls.accessibles[attr]
+    pobj = modobj.parameters[attr]
+    acfg = acfg if isinstance(acfg, dict) else {}
+    cc = acfg.get('constant')
+    return {'clsReadonly': bool(cls_p.readonly), 'clsConstant': None if cls_p.constant is None else canon(cls_p.constant),
+            'cfgReadonly': None if acfg.get('readonly') is None else bool(acfg['readonly']),
+            'cfgConstant': None if cc is None else canon(pobj.datatype(cc))}
+
+
+def add_inits(node, rec, cfgs):
+    """attach `init` to every module of the node JSON (cfgs: module name -> its configuration dict) and `pinit` to
+    every parameter"""
+    for mj in rec['node']['modules']:
+        modobj = node.secnode.modules[mj['name']]
+        mycls, = type(modobj).__bases__
+        for aj in mj['accs']:
+            if aj['kind'] == 'param' and mj['name'] in cfgs:
+                try:
+                    aj['pinit'] = param_init(mycls, modobj, aj['attr'], cfgs[mj['name']].get(aj['attr']))
+                except Exception:
+                    aj['pinit'] = None
+        try:
+            # a module that is not in the configuration (made by a Pinata): its configuration is not known here
+            mj['init'] = module_init(mycls, cfgs[mj['name']]) if mj['name'] in cfgs else None
+        except Exception:
+            mj['init'] = None      # a property value the harness cannot serialise: the property list stays data
+
+
+def generated_cfgs(nodespec):
+    """the module configurations c04.build_node makes from a node spec, as far as module properties are concerned"""
+    cfgs = {}
+    for ms in nodespec['modules']:
+        mcfg = {'description': 'generated module ' + ms['name']}
+        if not ms['exported']:
+            mcfg['export'] = False
+        for attr, over in ms['cfg'].items():
+            mcfg[attr] = dict(over)
+        cfgs[ms['name']] = mcfg
+    return cfgs
+
+
+def do_client_verdicts(desc, steps, rec):
+    """for every `do` with a payload aimed at a command described WITH an argument: does the argument datatype a client
+    rebuilds from the described datainfo import + validate the payload?  (computed by the real datatype code; judged in Lean)"""
+    from frappy.datatypes import get_datatype
+    for st, out in zip(steps, rec['steps']):
+        if st['kind'] != 'do' or st['data'] is None or not st['spec'] or ':' not in st['spec']:
+            continue
+        m, a = st['spec'].split(':', 1)
+        ad = desc['modules'].get(m, {}).get('accessibles', {}).get(a)
+        di = ad.get('datainfo') if ad else None
+        if not (isinstance(di, dict) and di.get('type') == 'command' and di.get('argument') is not None):
+            continue
+        try:
+            arg = get_datatype(json.loads(json.dumps(di)), a).argument
+        except Exception:
+            out['client'] = False
+            continue
+        payload = json.loads(json.dumps(st['data']))
+        out['client'] = c04.oracle_call(lambda: arg.validate(arg.import_value(payload)))[0] == 'ok'
 
 
 def client_verdicts(rng, node, desc, nodespec, rec):
@@ -202,26 +325,28 @@ def client_verdicts(rng, node, desc, nodespec, rec):
     return dichecks, imports
 
 
-def strict_json(desc):
+def report_text(desc):
+    """the report as the interface would put it on the wire (json.dumps as frappy.protocol.interface does: NaN / Infinity
+    are written as such); None when it cannot be serialised at all.  Whether the text is strict JSON is judged in Lean."""
     try:
-        s = json.dumps(desc, allow_nan=False)
-        json.loads(s)
-        return True
+        return json.dumps(desc)
     except Exception:
-        return False
+        return None
 
 
-def run_node(rng, node, box, nodespec, classes):
+def run_node(rng, node, box, nodespec, classes, cfgs=None):
     """-> dict for the driver, or {'errors': ...}"""
     desc1 = node.describe()
-    strict = strict_json(desc1)
+    strict = report_text(desc1)
     rep1 = report_json(desc1)
     steps, acts = sweep_steps(rng, node, nodespec)
     rec = None
     if nodespec is not None:
         rec = run_steps_on(node, box, nodespec, classes, steps)
     else:
-        rec = run_steps_plain(node, steps)
+        rec, steps = run_steps_plain(node, steps)
+    add_inits(node, rec, generated_cfgs(nodespec) if nodespec is not None else (cfgs or {}))
+    do_client_verdicts(desc1, steps, rec)
     activates = []
     for m, a in acts:
         conn = node.connect()
@@ -235,9 +360,10 @@ def run_node(rng, node, box, nodespec, classes):
         node.disconnect(conn)
     dichecks, imports = client_verdicts(rng, node, desc1, nodespec, rec)
     desc2 = node.describe()
-    classes = [{'m': mname, 'ic': list(md.get('interface_classes', [])), 'features': list(md.get('features', []))}
+    classes = [{'m': mname, 'ic': list(md.get('interface_classes', [])), 'features': list(md.get('features', [])),
+                'impl': md.get('implementation')}
                for mname, md in desc1['modules'].items()]
-    return {'rec': rec, 'classes': classes, 'report1': rep1, 'report2': report_json(desc2), 'activates': activates,
+    return {'rec': rec, 'generated': nodespec is not None, 'classes': classes, 'report1': rep1, 'report2': report_json(desc2), 'activates': activates,
             'dichecks': dichecks, 'imports': imports, 'strict': strict}
 
 
@@ -272,18 +398,24 @@ def with_timeout(seconds, func):
 
 def run_steps_plain(node, steps):
     """shipped configuration: only requests that must not reach a driver are sent (undescribed names, changes of
-    parameters described read-only, reads of constants); calls are not observed"""
+    parameters described read-only, reads of constants, requests of the wrong kind — change / read of a command, do of a
+    parameter —, do with a payload for a command described without argument); calls are not observed.
+    -> (record, the steps actually sent)"""
     desc = node.describe()
     conn = node.connect()
-    out = []
+    out, sent = [], []
     for st in steps:
         m, _, a = st['spec'].partition(':')
         ad = desc['modules'].get(m, {}).get('accessibles', {}).get(a) if a else None
         described = ad is not None
         if described:
-            if st['kind'] == 'change' and ad.get('readonly') is True:
+            di = ad.get('datainfo')
+            is_cmd = isinstance(di, dict) and di.get('type') == 'command'
+            if st['kind'] == 'change' and (ad.get('readonly') is True or is_cmd):
                 pass
-            elif st['kind'] == 'read' and 'constant' in ad:
+            elif st['kind'] == 'read' and ('constant' in ad or is_cmd):
+                pass
+            elif st['kind'] == 'do' and (not is_cmd or (st['data'] is not None and di.get('argument') is None)):
                 pass
             else:
                 continue
@@ -299,6 +431,7 @@ def run_steps_plain(node, steps):
             raise RuntimeError(f'request {st["kind"]} {st["spec"]} on a shipped configuration did not return within 30 s')
         data = st['data']
         wire = canonj(data) if st['kind'] == 'change' else (None if data is None else canonj(data)) if st['kind'] == 'do' else bool(data)
+        sent.append(st)
         out.append({'req': [st['kind'], st['spec'], wire], 'drv': 'none',
                     'obs': {'reply': c04.reply_obs(reply), 'calls': [], 'emits': [c04.msg_obs(x) for x in conn.msgs],
                             'before': before, 'after': c04.cache_rows(node)},
@@ -307,7 +440,7 @@ def run_steps_plain(node, steps):
         if timed_out:
             break
     nj = c04.node_json(node, None, None)
-    return {'node': nj, 'steps': out, 'oracle': c04.Oracle().json(), 'errors': []}
+    return {'node': nj, 'steps': out, 'oracle': c04.Oracle().json(), 'errors': []}, sent
 
 
 def shipped_nodes(ctx):
@@ -327,7 +460,7 @@ def shipped_nodes(ctx):
             if node.errors or not node.secnode.modules:
                 skipped.append(name)
                 continue
-            res.append((name, node))
+            res.append((name, node, mods))
         except BaseException:  # import errors, SystemExit of platform checks, ...
             skipped.append(name)
     return res, skipped
@@ -336,18 +469,60 @@ def shipped_nodes(ctx):
 def to_requests(data):
     rec = data['rec']
     base = {'p': PID, 'node': rec['node'], 'oracle': rec['oracle']}
-    return [dict(base, k='describe'),
-            dict(base, k='judge', report1=data['report1'], report2=data['report2'], classes=data['classes'],
-                 steps=[{'req': s['req'], 'obs': s['obs']} for s in rec['steps']],
+    return [dict(base, k='describe', steps=[{'req': s['req'], 'drv': s['drv']} for s in rec['steps']] if data.get('generated') else []),
+            dict(base, k='judge', text=data['strict'], report1=data['report1'], report2=data['report2'], classes=data['classes'],
+                 steps=[{'req': s['req'], 'obs': s['obs'], 'client': s.get('client', False)} for s in rec['steps']],
                  activates=[{'m': a['m'], 'a': a['a'], 'reply': a['reply'], 'subsChanged': a['subsChanged']}
                             for a in data['activates'] if not a['bare']],
                  dichecks=[{'m': d['m'], 'a': d['a'], 'client': d['client'], 'node': d['node']} for d in data['dichecks']],
                  imports=[{'m': d['m'], 'a': d['a'], 'ok': d['ok']} for d in data['imports']])]
 
 
+# module properties a configuration may give (modulebase.py: "only the properties predefined here are allowed to be set in
+# the cfg file" — the loop over propertyDict accepts EVERY declared property, the automatic ones included): name -> values
+MODULE_PROP_CFG = {
+    'group': ['grpA', 'grpB', ''],
+    'visibility': ['advanced', 'expert', 'user', 2],
+    'meaning': [('temperature', 10), ['x', 0], ('', 0)],
+    'description': ['configured description'],
+    'original_id': ['orig-7'],
+    'slowinterval': [30.0],
+    'implementation': ['frappy.core.Drivable', 'other.Cls', ''],
+    'interface_classes': [['Drivable'], [], ['Readable'], ['Readable', 'Drivable'], ['Magnet']],
+    'features': [['HasOffset'], [], ['FeatA'], ['FeatB', 'HasOffset']],
+}
+
+
+def gen_module_props(rng, nodespec):
+    """configuration entries naming MODULE PROPERTIES (the way frappy.config.Mod writes them: {'value': x}), added to the
+    parameter overrides the node generator makes"""
+    for ms in nodespec['modules']:
+        if rng.random() < 0.5:
+            continue
+        for key in rng.sample(sorted(MODULE_PROP_CFG), rng.randint(1, 3)):
+            ms['cfg'][key] = {'value': rng.choice(MODULE_PROP_CFG[key])}
+    # configuration entries for PARAMETER properties that decide what the report says and how the node behaves:
+    # a constant given in the configuration (makes the parameter read-only), a narrower range (changes the datainfo)
+    for ms in nodespec['modules']:
+        for layer in ms['layers']:
+            for p in layer['params']:
+                if 'dt' not in p or p.get('constant') or p['attr'] in ms['cfg'] or rng.random() > 0.08:
+                    continue
+                if p['dt'][0] in ('floatr', 'intr') and rng.random() < 0.5:
+                    lo, hi = p['dt'][1], p['dt'][2]
+                    ms['cfg'][p['attr']] = {'max': lo + (hi - lo) // 2 if p['dt'][0] == 'intr' else lo + (hi - lo) / 2}
+                else:
+                    try:
+                        ms['cfg'][p['attr']] = {'constant': c04.mk_dtype(p['dt']).import_value(c04.gen_valid(rng, p['dt']))}
+                    except Exception:
+                        pass
+    return nodespec
+
+
 def gen_case(seed, big):
     rng = random.Random(seed)
-    return {'seed': seed, 'big': big, 'nodespec': c04.gen_nodespec(rng, big)}
+    nodespec = c04.gen_nodespec(rng, big)
+    return {'seed': seed, 'big': big, 'nodespec': gen_module_props(random.Random(seed + 7), nodespec)}
 
 
 def run_generated(case):
@@ -361,6 +536,14 @@ def evaluate(ctx, res, label, case, data, model, judge):
     rec = data['rec']
     if 'driver_error' in model or 'driver_error' in judge:
         raise RuntimeError(f'driver error: {model.get("driver_error")} {judge.get("driver_error")} ({label})')
+    exch = model
+    # exchange correspondence: the model's reply / driver calls / emitted messages / cache for every request of the sweep
+    if ctx.model_ok and data.get('generated'):
+        d = c04.compare(exch, rec)
+        res.count('exchange-correspondence.requests', len(rec['steps']))
+        if d is not None:
+            res.disagreements.append({'case': case, 'model': {d['field']: d['model']},
+                                      'impl': {d['field']: d['impl'], 'req': d['req'], 'pyclass': d['pyclass'], 'step': d['step']}})
     res.evaluations += 1
     res.traces += len(rec['steps']) + len(data['activates']) + len(data['dichecks']) + len(data['imports']) + 2
     nacc = sum(len(m['accs']) for m in data['report1'])
@@ -369,8 +552,19 @@ def evaluate(ctx, res, label, case, data, model, judge):
     res.count('probes.activate', len(data['activates']))
     res.count('probes.datainfo', len(data['dichecks']))
     res.count('probes.import', len(data['imports']))
+    described = {(m['name'], a['name']): a for m in data['report1'] for a in m['accs']}
     for st in rec['steps']:
-        res.count('reply.' + (st['obs']['reply'][0] if st['obs']['reply'][0] != 'error' else st['obs']['reply'][1]))
+        rep = st['obs']['reply'][0] if st['obs']['reply'][0] != 'error' else st['obs']['reply'][1]
+        res.count('reply.' + rep)
+        if st['req'][0] == 'do' and st['req'][1] and ':' in st['req'][1]:
+            ad = described.get(tuple(st['req'][1].split(':', 1)))
+            target = 'undescribed' if ad is None else 'parameter' if ad['kind'] == 'param' else \
+                'command-with-argument' if ad['argument'] else 'command-without-argument'
+            payload = 'null' if st['req'][2] is None else 'empty' if st['req'][2] in ('0', '0.0', 'false', '""', '[]', '{}') else 'other'
+            res.count('do.%s.payload-%s.%s' % (target, payload, 'executed' if st['obs']['calls'] else rep))
+    for m in rec['node']['modules']:
+        for row in (m.get('init') or {}).get('cfg', []):
+            res.count('cfg.module-property.' + row[0])
     ro = sum(1 for m in data['report1'] for a in m['accs'] if a['readonly'] is True)
     const = sum(1 for m in data['report1'] for a in m['accs'] if a['constant'] is not None)
     res.count('described.readonly', ro)
@@ -383,14 +577,15 @@ def evaluate(ctx, res, label, case, data, model, judge):
         m = data['report1'][0]
         res.samples.append({'node': label, 'module': m['name'],
                             'described': [[a['name'], a['kind'], a['readonly'], a['constant']] for a in m['accs']][:8]})
-    if not data['strict']:
-        res.violations.append({'sig': 'C06:report-not-strict-json', 'what': f'the report of {label} is not strict JSON',
-                               'case': case})
     if ctx.model_ok and norm_report(model['report']) != norm_report(data['report1']):
         mm = [(a, b) for a, b in zip(norm_report(model['report']), norm_report(data['report1'])) if a != b][:1]
         res.disagreements.append({'case': case, 'model': mm[0][0] if mm else [m['name'] for m in model['report']],
                                   'impl': mm[0][1] if mm else [m['name'] for m in data['report1']]})
-    if ctx.model_ok and model.get('classes') != data['classes']:
+    mcls = model.get('classes') or []
+    if any(c.get('impl') is None for c in mcls):      # no `init` for that module: the model has no class name to offer
+        mcls = [dict(c, impl=d.get('impl')) if c.get('impl') is None else c for c, d in zip(mcls, data['classes'])] \
+            if len(mcls) == len(data['classes']) else mcls
+    if ctx.model_ok and mcls != data['classes']:
         res.disagreements.append({'case': case, 'model': model.get('classes'), 'impl': data['classes']})
     for c in data['classes']:
         res.count('interface_class.' + (c['ic'][0] if c['ic'] else 'none'))
@@ -399,7 +594,7 @@ def evaluate(ctx, res, label, case, data, model, judge):
     if judge['bad'] is not None:
         what, idx, name = judge['bad']
         detail = None
-        if what in ('undescribed-reachable', 'flag-not-honoured', 'constant-not-read'):
+        if what in ('undescribed-reachable', 'flag-not-honoured', 'constant-not-read', 'command-datainfo-not-honoured', 'other'):
             probes = [s for s in rec['steps'] if s['req'][0] != 'read' or not s['req'][2]]
             st = rec['steps'][idx] if idx < len(rec['steps']) else None
             detail = None if st is None else {'req': st['req'], 'reply': st['obs']['reply'], 'calls': st['obs']['calls'],
@@ -407,6 +602,14 @@ def evaluate(ctx, res, label, case, data, model, judge):
         elif what == 'undescribed-subscribed':
             acts = [a for a in data['activates'] if not a['bare']]
             detail = acts[idx] if idx < len(acts) else None
+        elif what == 'report-not-strict-json':
+            text = data['strict']
+            pos = min([text.find(t) for t in ('NaN', 'Infinity') if t in text] or [0]) if text else 0
+            detail = 'the report cannot be serialised' if text is None else text[max(0, pos - 120):pos + 40]
+        elif what == 'class-props':
+            detail = {'described': next((c for c in data['classes'] if c['m'] == name), None),
+                      'class chain': next((m.get('mro') for m in rec['node']['modules'] if m['name'] == name), None),
+                      'configuration': next(((m.get('init') or {}).get('cfg') for m in rec['node']['modules'] if m['name'] == name), None)}
         elif what == 'datainfo-disagrees':
             detail = data['dichecks'][idx]
         elif what == 'emitted-not-importable':
@@ -417,9 +620,11 @@ def evaluate(ctx, res, label, case, data, model, judge):
 
 def run(ctx):
     res = Result()
-    res.rule = ('one evaluation = one node: describe twice around a sweep of change/read/do/activate requests over every '
+    res.rule = ('one evaluation = one node (generated classes + configuration incl. entries for module properties - also the automatic ones - '
+                'and for constant / range of parameters): describe twice around a sweep of change/read/do/activate requests over every '
                 'described and every undescribed name (attribute names, underscore variants, old names of renamed '
-                'accessibles, accessibles of unexported modules, unknown modules), client datatypes rebuilt from the report '
+                'accessibles, accessibles of unexported modules, unknown modules; do with no payload, empty JSON values, junk, valid and boundary arguments), '
+                'client datatypes rebuilt from the report '
                 'against the node on generated payloads, emitted values against the described datainfo; non-trivial = the '
                 'node has described, undescribed and read-only accessibles')
     big = ctx.tier == 'thorough' or ctx.escalated
@@ -428,7 +633,7 @@ def run(ctx):
     cdir = os.path.join(ctx.verif, 'corpus', PID)
     if os.path.isdir(cdir):
         for fn in sorted(os.listdir(cdir)):
-            todo.append(json.load(open(os.path.join(cdir, fn)))['case'])
+            todo.append(dict(json.load(open(os.path.join(cdir, fn)))['case'], corpus=fn))
     for _ in range(ctx.budget(220, 3000)):
         todo.append(gen_case(rng.randrange(1 << 40), big))
     items = []
@@ -437,22 +642,36 @@ def run(ctx):
         if data is None:
             res.count('node.rejected-by-frappy')
             continue
-        items.append(('gen-%d' % case['seed'], {'kind': 'generated', 'seed': case['seed'], 'big': case['big']}, data))
+        if 'corpus' in case:
+            items.append(('corpus-' + case['corpus'], {'kind': 'corpus', 'file': case['corpus']}, data))
+        else:
+            items.append(('gen-%d' % case['seed'], {'kind': 'generated', 'seed': case['seed'], 'big': case['big']}, data))
+    def judge_items(items):
+        reqs = []
+        for _, _, data in items:
+            reqs += to_requests(data)
+        answers = []
+        for i in range(0, len(reqs), 40):
+            answers += ctx.driver.batch(reqs[i:i + 40])
+        for j, (label, case, data) in enumerate(items):
+            evaluate(ctx, res, label, case, data, answers[2 * j], answers[2 * j + 1])
+
+    # phase 1: generated nodes (fake drivers).  phase 2: the shipped configurations, whose drivers are REAL code: they are
+    # probed only with requests the node must refuse before any driver is involved, and only when phase 1 found the tree
+    # honouring its reports — a tree that already executes what it should refuse is not let loose on real drivers
+    judge_items(items)
+    if res.violations:
+        res.notes.append('shipped configurations NOT run: the generated nodes already show violations')
+        return res
     nodes, skipped = shipped_nodes(ctx)
     res.notes.append('shipped configurations run: %s; skipped (do not instantiate here): %s'
-                     % ([n for n, _ in nodes], skipped))
-    for name, node in nodes:
-        data = run_node(random.Random(name), node, None, None, None)
+                     % ([n for n, _, _ in nodes], skipped))
+    items = []
+    for name, node, mods in nodes:
+        data = run_node(random.Random(name), node, None, None, None, cfgs=mods)
         items.append(('cfg-' + name, {'kind': 'cfg', 'name': name}, data))
         res.count('shipped-cfg')
-    reqs = []
-    for _, _, data in items:
-        reqs += to_requests(data)
-    answers = []
-    for i in range(0, len(reqs), 40):
-        answers += ctx.driver.batch(reqs[i:i + 40])
-    for j, (label, case, data) in enumerate(items):
-        evaluate(ctx, res, label, case, data, answers[2 * j], answers[2 * j + 1])
+    judge_items(items)
     return res
 
 
@@ -460,10 +679,12 @@ def replay(ctx, rp):
     case = rp['case']
     if case['kind'] == 'generated':
         data = run_generated(gen_case(case['seed'], case['big']))
+    elif case['kind'] == 'corpus':
+        data = run_generated(json.load(open(os.path.join(ctx.verif, 'corpus', PID, case['file'])))['case'])
     else:
         nodes, _ = shipped_nodes(ctx)
-        node = dict(nodes)[case['name']]
-        data = run_node(random.Random(case['name']), node, None, None, None)
+        node, mods = {n: (nd, ms) for n, nd, ms in nodes}[case['name']]
+        data = run_node(random.Random(case['name']), node, None, None, None, cfgs=mods)
     if data is None:
         print('node rejected by frappy')
         return 2
@@ -475,6 +696,9 @@ def replay(ctx, rp):
     print('judge:', a[1])
     res = Result()
     evaluate(ctx, res, 'replay', case, data, a[0], a[1])
+    for d in res.disagreements:
+        print('model and implementation disagree:', json.dumps(d, default=str)[:600])
+        same = False
     for v in res.violations:
         print('violation:', v['what'])
     return 0 if not res.violations and same else 1
